@@ -1,15 +1,23 @@
 #!/bin/sh
 # confirm_seed.sh <worktree>: confirm a sub-agent's seeded change: suite passes with it, demo fails with it, demo passes without it.
+# The demo is whatever untracked *_test.go files the worktree holds outside SEEDED/.
 WT="$1"
 export GOFLAGS=-mod=mod GOPROXY=off GOSUMDB=off GOTOOLCHAIN=local
 cd "$WT" || exit 2
-git -C "$WT" apply --check -R SEEDED/patch.diff 2>/dev/null || { echo "patch not applied in worktree?"; }
+git apply --check -R SEEDED/patch.diff 2>/dev/null || { echo "patch not applied in worktree?"; }
+DEMOS=$(git status --porcelain --untracked-files=all | awk '$1=="??"{print $2}' | grep '_test\.go$' | grep -v '^SEEDED/')
+[ -n "$DEMOS" ] || { echo "no demo test files found"; exit 1; }
+PKGS=$(for f in $DEMOS; do echo "./$(dirname $f)"; done | sort -u)
+echo "demo files: $DEMOS"; echo "demo packages: $PKGS"
 echo "== build"; go build ./... && go build -tags verif ./... || exit 1
-echo "== suite with change (without demo package)"
-go test -vet=off -count=1 -timeout 20m $(go list ./... | grep -v /test/seeded) 2>&1 | grep -v "no test files" | grep -v "^ok" ; echo "suite rc=$?"
+echo "== suite with change (demo files moved aside)"
+ASIDE=$(mktemp -d)
+for f in $DEMOS; do mkdir -p "$ASIDE/$(dirname $f)"; mv "$f" "$ASIDE/$f"; done
+go test -vet=off -count=1 -timeout 20m $(go list ./... | grep -v /SEEDED | grep -v /test/seeded) 2>&1 | grep -v "no test files" | grep -v "^ok" ; echo "suite non-ok lines above (none = pass)"
+for f in $DEMOS; do mv "$ASIDE/$f" "$f"; done; rm -rf "$ASIDE"
 echo "== demo with change (must FAIL)"
-go test -vet=off -count=1 ./test/seeded/... >/tmp/seed_with.log 2>&1; echo "rc=$? (expect nonzero)"; tail -3 /tmp/seed_with.log
+go test -vet=off -count=1 $PKGS >/tmp/seed_with.log 2>&1; echo "rc=$? (expect nonzero)"; grep -E "^(--- FAIL|FAIL|ok)" /tmp/seed_with.log | head -5
 echo "== demo without change (must PASS)"
 git apply -R SEEDED/patch.diff || exit 1
-go test -vet=off -count=1 ./test/seeded/... >/tmp/seed_without.log 2>&1; echo "rc=$? (expect 0)"; tail -3 /tmp/seed_without.log
+go test -vet=off -count=1 $PKGS >/tmp/seed_without.log 2>&1; echo "rc=$? (expect 0)"; grep -E "^(--- FAIL|FAIL|ok)" /tmp/seed_without.log | head -5
 git apply SEEDED/patch.diff
